@@ -394,17 +394,21 @@ package setec
 //@   ensures [C09 do.sentinel-only-from-status] (err == api.ErrNotFound ==> (httpCalls == old(httpCalls) + 1 && lastDoErr == nil && lastStatus == 404)) && (err == api.ErrAccessDenied ==> (httpCalls == old(httpCalls) + 1 && lastDoErr == nil && lastStatus == 403)) && (err == api.ErrValueNotChanged ==> (httpCalls == old(httpCalls) + 1 && lastDoErr == nil && lastStatus == 304))
 //@   at call Set: assert [C08 do.headers] (arg_key == "Content-Type" && arg_value == "application/json") || (arg_key == "Sec-X-Tailscale-No-Browsers" && arg_value == "setec")
 //@ func (Client).GetIfChanged(c, ctx, name, oldVersion) (sv, err)
+//@   ensures [C09,C16 clientgic.returns-the-request-outcome-unchanged] (defined(call_do_0) && sv == call_do_0 && err == call_do_1) || (defined(call_Get_0) && sv == call_Get_0 && err == call_Get_1)
 //@   at call Get: assert [C09 clientgic.zero-is-get] oldVersion == 0 && arg_name == name
 //@   at call do: assert [C09 clientgic.conditional-request] oldVersion != 0 && arg_req.Name == name && arg_req.Version == oldVersion && arg_req.UpdateIfChanged && arg_path == "/api/get"
 //@ func (Client).Get(c, ctx, name) (sv, err)
+//@   ensures [C09,C16 clientget.returns-the-request-outcome-unchanged] sv == call_do_0 && err == call_do_1
 //@   at call do: assert [C09 clientget.request] arg_req.Name == name && arg_req.Version == 0 && !arg_req.UpdateIfChanged && arg_path == "/api/get"
 
 //@ func (Client).Put(c, ctx, name, value) (version, err)
+//@   ensures [C18 clientput.returns-the-request-outcome-unchanged] version == call_do_0 && err == call_do_1
 //@   ensures [C18 clientput.one-request] httpCalls == old(httpCalls) || httpCalls == old(httpCalls) + 1
 //@   at call do: assert [C18 clientput.sends-exactly-the-value] arg_req.Name == name && bytes(arg_req.Value) == bytes(value) && arg_path == "/api/put"
 
 // the remaining client methods: each sends exactly one request, to the endpoint of its name, carrying its arguments
 //@ func (Client).GetVersion(c, ctx, name, version) (sv, err)
+//@   ensures [C09,C18 clientgetversion.returns-the-request-outcome-unchanged] sv == call_do_0 && err == call_do_1
 //@   at call do: assert [C18 clientgetversion.request] arg_req.Name == name && arg_req.Version == version && !arg_req.UpdateIfChanged && arg_path == "/api/get"
 //@ func (Client).List(c, ctx) (infos, err)
 //@   at call do: assert [C08 clientlist.request] arg_path == "/api/list"
